@@ -43,7 +43,7 @@ SCOPES = {
             ("policy", _c(1, {0, 1, 2, UNL}, 3, {"start", "stop", "cancel"}), "Spec", MC_INV, MC_PROPS, None, None),
             ("service_stop", _c(1, {0, 1}, 2, SVC - {"wait"}), "Spec", MC_INV, MC_PROPS, [a for a in ACTIONS_1 if "Wait" not in a], None),
             ("service_wait", _c(1, {0, 1}, 2, SVC - {"stop"}), "Spec", MC_INV, MC_PROPS, ["CallWaitStep", "WaitRoundStep"], None),
-            ("service_both", _c(1, {1}, 2, SVC - {"cancel"}, {"prop", "exc"}), "Spec", MC_INV, MC_PROPS, None, None),
+            ("service_both", _c(1, {0}, 1, SVC - {"cancel"}), "Spec", MC_INV, MC_PROPS, None, None),
             # legacy design (wait() before commit 799638e), specification only: the clause is violated and the cause predicate names it
             ("legacy_witness", _c(1, {0}, 1, SVC | {"legacy"}), "Spec", [], ["StopReturnsOnlyWhenAllDone"], None, "StopReturnsOnlyWhenAllDone"),
             ("legacy_cause", _c(1, {0, 1}, 2, (SVC - {"wait"}) | {"legacy"}), "Spec", [], ["LegacyViolationHasCause"], None, None),
